@@ -11,7 +11,7 @@ LEVEL = 'exploration'
 TECHNIQUE = 'online trace monitor (event-grammar automaton + bounded-termination rule) over bounded-exhaustive histories on a virtual clock'
 BUDGET_S = {'quick': 35, 'thorough': 280}
 REQUIRED = {'all': ['oracle.grammar_checked', 'oracle.terminated_runs', 'oracle.connect_phase_runs', 'oracle.reconnect_runs']}
-RULE = ('bounded-exhaustive histories: handshake variant x every sequence of <= D server steps from a 17-step '
+RULE = ('bounded-exhaustive histories: handshake variant x every sequence of <= D server steps from an 18-step '
         'alphabet (data/control/invalid frames, close variants, half frame, silence, EOF, ECONNRESET) x 16 '
         'application policies (send/close at each event kind, at every event, send-then-close) x 3 timer '
         'settings on a virtual clock; D = 2 in quick (+ sampled depth 3..5), 3 in thorough (+ sampled 4..6). '
@@ -42,6 +42,8 @@ ALPHABET = {
     'longsilence': ('delay', 7.0),
     'eof': ('eof',),
     'reset': ('err', 'reset'),
+    # traffic that keeps the socket readable every 0.4 s but never completes a message (no events)
+    'drip': ('drip', F(2, b'd', fin=0), F(0, b'd', fin=0), 40, 0.4),
 }
 STEPS = sorted(ALPHABET)
 
@@ -90,12 +92,21 @@ def cases(tier, seed, i, n):
                     continue
                 for seq in itertools.product(STEPS, repeat=d):
                     yield dict(kind='hist', hs=hs, seq=list(seq), seg='perstep')
-        yield gen.mark('every sequence of <= %d server steps (17-step alphabet) x 6 handshake variants x 16 policies x 3 timer settings' % depth)
+        yield gen.mark('every sequence of <= %d server steps (18-step alphabet) x 6 handshake variants x 16 policies x 3 timer settings' % depth)
         rnd = random.Random(seed * 8191 + 7)
         for _ in range(6000 if tier == 'quick' else 60000):
             d = rnd.randint(3, 5) if tier == 'quick' else rnd.randint(4, 6)
             yield dict(kind='hist', hs=rnd.choice(list(HS)), seq=[rnd.choice(STEPS) for _ in range(d)],
-                       seg=rnd.choice(('perstep', 'coalesced', 'bytewise')))
+                       seg=rnd.choice(('perstep', 'coalesced', 'bytewise')),
+                       faults=[[rnd.choice(('sendall', 'recv')), rnd.randint(1, 4), rnd.choice(('reset', 'timeout', 'runtime'))]]
+                       if rnd.random() < 0.3 else [])
+        # every fault at the library's / application's 1st..3rd frame write and 1st..3rd read, for short histories
+        for hs in ('ok', 'ok+frame'):
+            for seq in (['text'], ['ping'], ['close'], ['text', 'close'], ['ping', 'text'], ['frag', 'drip'], ['drip']):
+                for op in ('sendall', 'recv'):
+                    for k in (1, 2, 3):
+                        for fk in ('reset', 'timeout', 'runtime', 'reset-braces'):
+                            yield dict(kind='hist', hs=hs, seq=seq, seg='perstep', faults=[[op, k, fk]])
         for c in connect_phase_cases():
             yield c
     return gen.shard(allcases(), i, n)
@@ -149,12 +160,15 @@ def one(case, pn, tn, acc):
     elif seg == 'bytewise':
         cuts = 'all'
     ckw, horizon = TIMERS[tn]
-    w = H.World(H.hs_server(steps, spec), cuts=cuts, horizon=horizon, budget=20000)
+    faults = {(f[0], f[1]): f[2] for f in case.get('faults', ())}
+    w = H.World(H.hs_server(steps, spec), cuts=cuts, horizon=horizon, budget=20000, faults=faults,
+                stop_at=max(horizon, 18.0) if 'drip' in case['seq'] else None)
     run = H.drive(w, connect_kwargs=ckw, policy=H.TablePolicy(POLICIES[pn]))
     judge(run, w, acc, dict(case, policy=pn, timer=tn))
     if run.end == 'stop' and (len(case['seq']) + len(pn) + len(tn)) % 3 == 0:
         # the same history once more on the SAME WebSocket object (reconnect): same grammar
-        w2 = H.World(H.hs_server(steps, spec), cuts=cuts, horizon=horizon, budget=20000)
+        w2 = H.World(H.hs_server(steps, spec), cuts=cuts, horizon=horizon, budget=20000,
+                     stop_at=max(horizon, 18.0) + 7.25 if 'drip' in case['seq'] else None)
         w2.now = 7.25      # a later instant on the clock
         run2 = H.drive(w2, ws=run.ws, connect_kwargs=ckw, policy=H.TablePolicy(POLICIES[pn]))
         acc.count2('oracle', 'reconnect_runs')
@@ -170,6 +184,12 @@ def judge(run, w, acc, case):
         key = monitors.run_end_violation(run, w)
     if key is None and run.end == 'quiesced' and case.get('timer') in TIMERS:
         key = overdue_timeout(run, w, TIMERS[case['timer']][0])
+        if key is None and 'ready' in names and w.now - run.times[names.index('ready')] > 4.0:
+            # Poll must keep coming while the connection is up (also when traffic never lets the selector time out)
+            p_ = TIMERS[case['timer']][0].get('poll', 1.0)
+            polls = [t for n_, t in zip(names, run.times) if n_ == 'poll']
+            if not polls or w.now - polls[-1] > 2 * p_ + 1e-9:
+                key = 'regular-checks-starved-while-connection-up'
     if key == 'INCONCLUSIVE-budget':
         acc.inconclusive.append('step budget exceeded on %r' % (case,))
         return
@@ -200,11 +220,11 @@ def overdue_timeout(run, w, ckw):
     if ct:
         first = True
         for e in w.log:
-            if e[0] == 'sendall':
+            if e[0] in ('sendall', 'sendall_fault'):
                 if first:
                     first = False
                     continue
-                fr = refws.decode_client_stream(e[5])[0]
+                fr = refws.decode_client_stream(e[5] if e[0] == 'sendall' else e[5][1])[0]
                 if fr and fr[0]['opcode'] == 8 and e[1] >= t0:
                     if now - e[1] > ct + 2 * p + 1e-9:
                         return 'no-termination-after-close-timeout-elapsed'
